@@ -226,6 +226,83 @@ M.update({
    strengthened="C20: a quarter of the axes are fine grids: start on a 1/1024 grid, sizes 1/64, 1/256, 1/1024"),
 })
 
+# ---- fourth round: three earlier changes known, asked for inputs a foreign generator would not produce ----
+M.update({
+ "C01d": dict(change="funcGen/optimizer.go: arity guard of the constant-closure call folding only rejects too few arguments (same slip as C02c/C05c, seeded independently)",
+   needs="a constant pure closure called with too many constant arguments: folded to a value instead of the arity error",
+   demo=("value", "TestC01d"), ran=["C01"], first="caught by C01 quick", strengthened=""),
+ "C02d": dict(change="funcGen/generator.go Switch: the purity of the case label expressions no longer enters the purity of the switch",
+   needs="an impure static function as a case LABEL inside a closure or func that captures nothing, applied to constants, optimizer on: the impure function runs during Generate and never again",
+   demo=("value", "TestC02d"), ran=["C02"], first="missed by C02 (case labels were literals or small pure expressions)",
+   strengthened="lang generator: inside closures that capture nothing 40 % of the int case labels are host calls ik(c)/pk(c), and switch is produced more often there (class host_call_in_a_case_label)"),
+ "C03d": dict(change="token.go NewOperatorDetector: the remainder of an operator spelling is cut off by one BYTE instead of one character",
+   needs="an operator table with an operator that contains a character outside ASCII: every expression using it is rejected",
+   demo=(".", "TestC03d"), ran=["C03"], first="missed by C03 (operator alphabet was ASCII only)",
+   strengthened="C03: the operator alphabet also holds the symbols <= (U+2264), and, not, approx, xor (U+2227 U+00AC U+2248 U+2295); spelling length is counted in characters"),
+ "C04d": dict(change="parser2.go parseLet: the closure of a func statement is optimized with the internal helper that has no recover",
+   needs="an argument independent sub-expression directly in the body of a func statement whose parse-time evaluation panics (self-application w(w) runs into the stack guard): the panic escapes Parse/Generate",
+   demo=("value", "TestC04d"), ran=["C04", "C05"], first="missed by C04 and C05 (no generated constant panicked while being folded, none sat in a func body)",
+   strengthened="inputs (C04, C12): hostile constants - 13 argument independent expressions that panic, fail or diverge when folded - in 22 grammar positions (func body, nested func body, let value, closure body, case label, catch branch ...), also as mutation seeds; C05: contexts funcBody, funcBodyNeverCalled, nestedFuncBody and the recursion fault 'constant self-application'"),
+ "C05d": dict(change="value/map.go Map.Map: the error of the closure is assigned to a shadowed variable inside the Iter callback and lost",
+   needs="a fault raised inside the closure of the map method OF A MAP ({a:1,b:0}.map((k,v)->6%v)): a truncated map instead of the error, not catchable",
+   demo=("value", "TestC05d"), ran=["C05", "C07"], first="missed by C05 and C07 (faults were never placed in the closures of map methods)",
+   strengthened="C05: contexts mapMethodMap, mapMethodAccept, mapMethodReplace, mapMethodCombine"),
+ "C06d": dict(change="value/operations.go Add: two evaluated lists are concatenated by appending onto the left operand's slice without clipping it",
+   needs="a left operand with spare capacity (evaluated item by item, result of append, group values) and two concatenations onto it that are alive at the same time or run on parallel workers",
+   demo=("value", "TestC06d"), ran=["C06", "C09"], first="missed by C06 (stage closures never concatenate onto a captured evaluated list); caught by C09 quick (two derivations by + from one parent)",
+   strengthened=""),
+ "C07d": dict(change="value/map.go ReplaceMap.createFlat: a replacement map of the same size as the original is returned as the flattened result",
+   needs="a chain of at least 11 replace calls and, at the flattening call, a replacement of the same size as the original with a key the original does not have",
+   demo=("value", "TestC07d"), ran=["C07", "C13"], first="missed by C07 (no deep replace chains); caught by C13 quick",
+   strengthened="C07: map method template numbers(8..13).mapReduce(m,(a,b)->a.replace(..)).replace(e->R) with replacement maps of 1..4 keys inside and outside the key set"),
+ "C08d": dict(change="value/list.go Cross: the second list is materialised with Eval the first time it is needed again",
+   needs="a cross whose second list is lazy and a short-circuit consumer whose decisive element lies in the second row: the whole inner pipeline runs, the demand bound is exceeded",
+   demo=("value", "TestC08d"), ran=["C08"], first="missed by C08 (no cross in the counted pipelines)",
+   strengthened="C08: cross_rows - in an eighth of the cases the counted list is the second operand of numbers(R).cross(.., (a,b)->b); the demand model repeats the inner sequence per row, every pull costs one call; exemplar"),
+ "C09d": dict(change="value/list.go containsAllItems: ToSlice instead of CopyToSlice (the change C10 of round one, seeded independently for C09)",
+   needs="list ~ list whose left operand is observed again",
+   demo=("value", "TestC09d"), ran=["C09"], first="caught by C09 quick (observer operations added after round one)", strengthened=""),
+ "C10d": dict(change="funcGen/generator.go MethodCall: a per-call-site flag switches the closure-field check off for good after the first map receiver without that key",
+   needs="one call site m.name(..) executed on a map without the key first and on a map that stores a closure under name later (on the same generated function)",
+   demo=("value", "TestC10d"), ran=["C10", "C01"], first="missed by C10 (the receiver of a closure-field call always had the field)",
+   strengthened="lang generator: ONE call site (if cond then {v:.., get: s->..} else {v:..}).get('v') whose receiver has the closure field for some arguments only; C10 exemplar"),
+ "C11d": dict(change="value/value.go createLowPass: the filter closure caches its coefficient in two variables shared by all uses of the closure",
+   needs="a low pass filter built from constants (folded, shared by all evaluations), used through iirApply in overlapping evaluations on signals whose sampling intervals are not all identical",
+   demo=("value", "TestC11d"), ran=["C11"], first="missed by C11 (generated programs never use library-built closures)",
+   strengthened="C11: job library_closures - five fixed programs with constants the library builds (createLowPass, createInterpolation, linearReg, filter maps) on irregularly sampled signals; oracle: isolated evaluation of a fresh function; race detector"),
+ "C12d": dict(change="token.go Tokenizer.Stop/run: Stop receives exactly one token and sets a flag instead of draining the channel",
+   needs="parsing stops early and the character behind the offending token is a superscript digit (sent as two tokens) or starts an implicit multiplication in comfort mode: the tokenizer blocks in its second send",
+   demo=("value", "TestC12d"), ran=["C12", "C04"], first="caught by C12 quick (token soups with superscripts)", strengthened=""),
+ "C13d": dict(change="value/map.go Map.IsAvail: early false when more keys are requested than the map holds",
+   needs="isAvail with more arguments than the map has entries, all of them keys of the map (so some are repeated)",
+   demo=("value", "TestC13d"), ran=["C13"], first="missed by C13 (isAvail was only observed with one key)",
+   strengthened="C13: observer isAvail with 2..5 keys, repeated keys included, against the single key observers"),
+ "C14d": dict(change="value/list.go containsAllItems: ToSlice instead of CopyToSlice (third independent seeding of this change)",
+   needs="list ~ list with the left operand observed again, or the same list on both sides",
+   demo=("value", "TestC14d"), ran=["C14", "C09"], first="missed by C14 (the list form of ~ was not modelled: skipped); caught by C09 quick",
+   strengthened="C14: model of the list form of ~ (every item of the left list is found in the right one, each right item serves once); with it a ~ a on the same object is checked"),
+ "C15d": dict(change="token.go readStr: utf8.RuneError is rejected as invalid UTF-8 without looking at the width",
+   needs="a string literal that contains the validly encoded character U+FFFD",
+   demo=(".", "TestC15d"), ran=["C15"], first="caught by C15 quick (U+FFFD is in the weighted character set)", strengthened=""),
+ "C16d": dict(change="parser2.go parseLet func branch: the rest of the scope is parsed with the resolver of the func BODY, so the parameters stay bound behind the func",
+   needs="a func that is not folded (uses an attribute or is recursive) and, behind it in the same scope, an attribute named like one of its parameters",
+   demo=("value", "TestC16d"), ran=["C16"], first="caught by C16 quick (attribute names collide with local names)", strengthened=""),
+ "C17d": dict(change="value/export/json.go: the map exporter counts down m.Size() to place the commas",
+   needs="a map whose Size() over-counts its entries - on the tree of that round a function map with a declared but absent key",
+   demo=("value/export", "TestC17d"), ran=["C17", "C13"], first="missed by C17 and C13 (function maps with optional keys were excluded as a precondition) - the over-count it exploits is a genuine defect of the unchanged tree (F31, fixed); with that repair the demonstration passes, the change can no longer manifest through any map the library builds",
+   strengthened="C13 creates function maps with declared but absent keys, the export trees of C17/C18 use them as a fourth map representation"),
+ "C18d": dict(change="value/export/xml.go isSimpleMap: a type switch instead of ToMap/ToList - a list or map wrapped by a Link is no collection any more",
+   needs="an XML export of a map with name keys and scalar values that also holds a Link around a list or map: the collection is written as one flat attribute",
+   demo=("value/export", "TestC18d"), ran=["C18"], first="caught by C18 quick (Link wrappers around containers are generated)", strengthened=""),
+ "C19d": dict(change="parser2.go parseUnary: opPos > 0 instead of >= 0",
+   needs="an operator table in which the binary twin of a prefix operator is the FIRST (lowest priority) entry: -a^2 is grouped as (-a)^2",
+   demo=("funcGen", "TestC19d"), ran=["C19", "C03"], first="missed by C19 (only the priorities of example/minimal.go); caught by C03 quick",
+   strengthened="C19 float_sampled: a third of the cases use a permutation of the eight binary operators as declared priorities (a third of those with '-' first), generators rebuilt per case, optimizer on and off"),
+ "C20d": dict(change="value/binning.go Binning2d: rows whose total is 0 share one list of zeros",
+   needs="a two-dimensional binning in which the values of one x bin cancel to exactly 0 across different y bins",
+   demo=("value", "TestC20d"), ran=["C20"], first="caught by C20 quick (negative weights, exact sums)", strengthened=""),
+})
+
 def results():
     res = {}
     p = "/verif/seeded/RESULTS.txt"
